@@ -809,4 +809,52 @@ example :
           [some (some [46, 115, 104, 115, 116, 114, 116, 97, 98]), some (some [116, 114, 116, 97, 98]),
            some (some []), some none]] := by decide
 
+/-- a 268-byte ELF64/LSB image: one program header (PT_NOTE over [120,140)), the note
+    `namesz 4 "GNU\0", descsz 4 [1,2,3,4], type 1` at offset 120, two section headers at 140 (the null
+    section and a SHT_NOTE section over the same 20 bytes) -/
+def imgNote : Bytes := [
+   127, 69, 76, 70, 2, 1, 1, 0, 0, 0, 0, 0, 0, 0, 0, 0, 1, 0, 62, 0, 1, 0, 0, 0, 0, 0, 0, 0, 0, 0, 0, 0,
+   64, 0, 0, 0, 0, 0, 0, 0, 140, 0, 0, 0, 0, 0, 0, 0, 0, 0, 0, 0, 64, 0, 56, 0, 1, 0, 64, 0, 2, 0, 0, 0,
+   4, 0, 0, 0, 4, 0, 0, 0, 120, 0, 0, 0, 0, 0, 0, 0, 0, 0, 0, 0, 0, 0, 0, 0, 0, 0, 0, 0, 0, 0, 0, 0,
+   20, 0, 0, 0, 0, 0, 0, 0, 20, 0, 0, 0, 0, 0, 0, 0, 4, 0, 0, 0, 0, 0, 0, 0, 4, 0, 0, 0, 4, 0, 0, 0,
+   1, 0, 0, 0, 71, 78, 85, 0, 1, 2, 3, 4, 0, 0, 0, 0, 0, 0, 0, 0, 0, 0, 0, 0, 0, 0, 0, 0, 0, 0, 0, 0,
+   0, 0, 0, 0, 0, 0, 0, 0, 0, 0, 0, 0, 0, 0, 0, 0, 0, 0, 0, 0, 0, 0, 0, 0, 0, 0, 0, 0, 0, 0, 0, 0,
+   0, 0, 0, 0, 0, 0, 0, 0, 0, 0, 0, 0, 0, 0, 0, 0, 7, 0, 0, 0, 0, 0, 0, 0, 0, 0, 0, 0, 0, 0, 0, 0,
+   0, 0, 0, 0, 120, 0, 0, 0, 0, 0, 0, 0, 20, 0, 0, 0, 0, 0, 0, 0, 0, 0, 0, 0, 0, 0, 0, 0, 4, 0, 0, 0,
+   0, 0, 0, 0, 0, 0, 0, 0, 0, 0, 0, 0]
+
+/-- what a query answered, boiled down to something `decide` can compare -/
+def outDigest : Inspect.Out → List Nat
+  | .null => [0]
+  | .obj => [1]
+  | .str none => [2]
+  | .str (some s) => 3 :: s.map (·.toNat)
+  | .num n => [4, n]
+  | .note none => [5]
+  | .note (some n) => [6, n.type.toNat, n.name.length, n.descSize.toNat] ++ (n.desc.getD []).map (·.toNat)
+  | .dyn .invalid => [7]
+  | .dyn (.nostr t v) => [8, t.toNat, v.toNat]
+  | .dyn (.ok t v _) => [9, t.toNat, v.toNat]
+  | .attrs l => [10, l.length]
+  | .attr a => [11, if a.isSome then 1 else 0]
+  | .value v => [12, if v.isSome then 1 else 0]
+  | .sym r => [13, if r.ret then 1 else 0]
+  | .complaints l => [14, l.length]
+
+set_option maxRecDepth 100000 in
+example : InputBound imgNote := by unfold InputBound; decide
+
+/- lazy load of `imgNote`, then a sequence of queries with in- and out-of-range section, segment and
+   entry indices, wrong-typed accessors (dynamic / symbol / modinfo reader on the note section) and
+   the dump trace: the hypotheses of `load_inspect_total` are met, and the answers are the expected
+   ones (one note through the section and through the segment, descriptor bytes 1 2 3 4) -/
+set_option maxRecDepth 1000000 in
+example :
+    ((load {} { data := imgNote } true).toOption.bind fun r =>
+      (Inspect.inspectSeq r.obj [.noteNum 1, .note 1 0, .note 1 1, .note 1 4294967295, .segNoteNum 0,
+        .segNote 0 0, .segNote 3 0, .dynNum 1, .dyn 1 0, .symNum 1, .sym 1 0, .modinfo 1, .str 1 4, .dump,
+        .noteNum 7, .sec 1 true, .validate]).toOption.map fun p => p.2.map outDigest) =
+    some [[4, 1], [6, 1, 3, 4, 1, 2, 3, 4], [5], [5], [4, 1], [6, 1, 3, 4, 1, 2, 3, 4], [0], [4, 0], [7],
+      [4, 0], [13, 0], [10, 5], [3, 4], [1], [0], [1], [14, 0]] := by decide
+
 end ElfioVerif.C01
